@@ -682,7 +682,10 @@ func (a *tsRun) run(s *tsState) {
 				f.regs[in] = val{k: kFieldAddr, n: int64(in.Field)}
 			}
 		case *ssa.Field:
-			// value-typed receiver copies are not used by these components
+			// a field of a struct value held in a register (a small argument bundle passed by value)
+			if x := a.get(f, in.X); x.k == kTuple && in.Field < len(x.t) {
+				f.regs[in] = x.t[in.Field]
+			}
 		case *ssa.Alloc:
 			if types.Identical(in.Type().(*types.Pointer).Elem(), c.T) && f.fn == c.Ctor {
 				f.regs[in] = val{k: kRecv}
@@ -707,6 +710,13 @@ func (a *tsRun) run(s *tsState) {
 				} else if _, ok := in.X.(*ssa.Alloc); ok {
 					if cv, ok := f.regs[cellKey{in.X}]; ok {
 						f.regs[in] = cv
+					}
+				} else if lfa, ok := in.X.(*ssa.FieldAddr); ok {
+					// a field of a local struct (an argument bundle built field by field, or a by-value parameter)
+					if al, ok := lfa.X.(*ssa.Alloc); ok {
+						if cv, ok := f.regs[cellKey{al}]; ok && cv.k == kTuple && lfa.Field < len(cv.t) {
+							f.regs[in] = cv.t[lfa.Field]
+						}
 					}
 				} else if g, ok := in.X.(*ssa.Global); ok && sentinelError(g) {
 					f.regs[in] = vnil(true) // a named error: the same as errors.New at the use site
@@ -772,6 +782,17 @@ func (a *tsRun) run(s *tsState) {
 						delete(s.fields, fi) // overwritten by something that is not a token
 					}
 				}
+			} else if lfa, isLF := in.Addr.(*ssa.FieldAddr); isLF && isLocalStructAlloc(lfa.X) {
+				// field-wise fill of a local struct: the cell holds one abstract value per field (copied on write)
+				al := lfa.X.(*ssa.Alloc)
+				nf := structOf(al.Type()).NumFields()
+				old := f.regs[cellKey{al}]
+				nt := make([]val, nf)
+				if old.k == kTuple && len(old.t) == nf {
+					copy(nt, old.t)
+				}
+				nt[lfa.Field] = v
+				f.regs[cellKey{al}] = val{k: kTuple, t: nt}
 			} else if _, ok := in.Addr.(*ssa.Alloc); ok {
 				f.regs[cellKey{in.Addr}] = v
 			} else if v.k == kRecv {
@@ -1775,4 +1796,9 @@ func calleeNameOf(c *ssa.Call) string {
 		return f.String()
 	}
 	return ""
+}
+
+func isLocalStructAlloc(v ssa.Value) bool {
+	al, ok := v.(*ssa.Alloc)
+	return ok && structOf(al.Type()) != nil
 }
